@@ -57,23 +57,66 @@ def feasible(formulas, timeout_ms=FEAS_TIMEOUT_MS):
     return r != z3.unsat
 
 
+class _Cvc5Job:
+    """cvc5 CLI on one query, started in the background so that z3's long stage runs meanwhile."""
+
+    def __init__(self, smt2: str, timeout_s: int):
+        self.proc = None
+        self.path = None
+        self.timeout_s = timeout_s
+        exe = "/usr/bin/cvc5"
+        if not os.path.exists(exe):
+            return
+        with tempfile.NamedTemporaryFile("w", suffix=".smt2", delete=False) as f:
+            f.write("(set-logic ALL)\n" + smt2 + "\n(check-sat)\n")
+            self.path = f.name
+        try:
+            self.proc = subprocess.Popen([exe, "--strings-exp", f"--tlimit={timeout_s*1000}", self.path],
+                                         stdout=subprocess.PIPE, stderr=subprocess.PIPE, text=True)
+            self.t0 = time.time()
+        except Exception:
+            self.proc = None
+
+    def result(self, wait=True):
+        """('sat'|'unsat'|'unknown', detail).  wait=False: only if already finished."""
+        if self.proc is None:
+            self._cleanup()
+            return "unknown", "cvc5 missing"
+        try:
+            if not wait and self.proc.poll() is None:
+                return None, ""
+            remaining = max(1.0, self.timeout_s + 5 - (time.time() - self.t0))
+            out, err = self.proc.communicate(timeout=remaining)
+            lines = (out or "").strip().splitlines()
+            res = lines[0] if lines else "unknown"
+            return (res if res in ("sat", "unsat") else "unknown"), (err or "")[:200]
+        except Exception as e:       # timeout or crash: undecided
+            self.cancel()
+            return "unknown", repr(e)[:200]
+        finally:
+            if self.proc is None or self.proc.poll() is not None:
+                self._cleanup()
+
+    def cancel(self):
+        try:
+            if self.proc is not None and self.proc.poll() is None:
+                self.proc.kill()
+                self.proc.communicate(timeout=5)
+        except Exception:
+            pass
+        self._cleanup()
+
+    def _cleanup(self):
+        if self.path and os.path.exists(self.path):
+            try:
+                os.unlink(self.path)
+            except OSError:
+                pass
+        self.path = None
+
+
 def _cvc5(smt2: str, timeout_s: int):
-    exe = "/usr/bin/cvc5"
-    if not os.path.exists(exe):
-        return "unknown", "cvc5 missing"
-    with tempfile.NamedTemporaryFile("w", suffix=".smt2", delete=False) as f:
-        f.write("(set-logic ALL)\n" + smt2 + "\n(check-sat)\n")
-        path = f.name
-    try:
-        p = subprocess.run([exe, "--strings-exp", f"--tlimit={timeout_s*1000}", path],
-                           capture_output=True, text=True, timeout=timeout_s + 5)
-        out = (p.stdout or "").strip().splitlines()
-        res = out[0] if out else "unknown"
-        return (res if res in ("sat", "unsat") else "unknown"), (p.stderr or "")[:200]
-    except Exception as e:  # timeout or crash: undecided
-        return "unknown", repr(e)[:200]
-    finally:
-        os.unlink(path)
+    return _Cvc5Job(smt2, timeout_s).result()
 
 
 def _size(f):
@@ -288,21 +331,62 @@ def discharge(ob, axioms, timeout_ms=None, use_cvc5=True, seed=0):
     s.set("timeout", min(FAST_MS, timeout_ms))
     r = s.check()
     stage3 = False
-    if r == z3.unknown and use_cvc5 and timeout_ms > FAST_MS:
-        try:
-            smt2 = s.to_smt2().replace("(check-sat)", "")
-            res, err = _cvc5(smt2, max(5, timeout_ms // 1000))
-        except Exception as e:
-            res, err = "unknown", repr(e)
-        if res in ("unsat", "sat"):
-            ob.seconds = time.time() - t0
-            ob.backend = "cvc5"
-            ob.status = "discharged" if res == "unsat" else "refuted"
-            ob.reason = "z3: unknown in fast stage; cvc5: " + res + ("" if res == "unsat" else " (no model extracted)")
-            return ob
+    if r == z3.unknown and timeout_ms > FAST_MS:
+        # stage 2+3: cvc5 (background process) and z3 with the full budget (fresh solver), whichever
+        # decides first
+        job = None
+        if use_cvc5:
+            try:
+                job = _Cvc5Job(s.to_smt2().replace("(check-sat)", ""), max(5, timeout_ms // 1000))
+            except Exception:
+                job = None
+        s = z3.Solver()
+        s.set("random_seed", seed)
+        for a in axioms:
+            s.add(a)
+        for p in ob.pc:
+            s.add(p)
+        s.add(z3.Not(ob.goal))
         s.set("timeout", timeout_ms)
-        r = s.check()
         stage3 = True
+        if job is None:
+            r = s.check()
+        else:
+            import threading
+            box = {}
+
+            def _run():
+                try:
+                    box["r"] = s.check()
+                except Exception:
+                    box["r"] = z3.unknown
+            th = threading.Thread(target=_run, daemon=True)
+            th.start()
+            res = None
+            while th.is_alive():
+                th.join(0.05)
+                if res is None:
+                    got, _err = job.result(wait=False)
+                    if got in ("sat", "unsat"):
+                        res = got
+                        try:
+                            s.ctx.interrupt()
+                        except Exception:
+                            pass
+                    elif got == "unknown":
+                        res = "unknown"
+            r = box.get("r", z3.unknown)
+            if res in ("sat", "unsat") and r == z3.unknown:
+                pass
+            elif r == z3.unknown and res is None:
+                res, _err = job.result(wait=True)
+            if r == z3.unknown and res in ("unsat", "sat"):
+                ob.seconds = time.time() - t0
+                ob.backend = "cvc5"
+                ob.status = "discharged" if res == "unsat" else "refuted"
+                ob.reason = "z3: unknown; cvc5: " + res + ("" if res == "unsat" else " (no model extracted)")
+                return ob
+            job.cancel()
     ob.seconds = time.time() - t0
     ob.backend = "z3"
     if r == z3.unsat:
